@@ -51,10 +51,6 @@ def _z3_try(smt2, timeout_ms, tactic=None, seed=0):
         else:
             s = z3.Solver(ctx=ctx)
         s.set("timeout", int(timeout_ms))
-        try:
-            s.set("random_seed", seed)
-        except z3.Z3Exception:
-            pass
         s.from_string(smt2)
         r = s.check()
         if r == z3.unsat:
@@ -95,14 +91,11 @@ def solve_one(job):
     name, smt2, budget, has_int, ideal = job
     tried = []
     total = 0.0
-    # 1. z3 default
-    st, info, dt = _z3_try(smt2, budget)
+    # 1. z3 default, short first slice (most obligations close in milliseconds)
+    first = min(budget, 4000) if ideal is not None else budget
+    st, info, dt = _z3_try(smt2, first)
     tried.append(("z3", st, round(dt, 3)))
     total += dt
-    if st == "unknown" and not has_int:
-        st, info, dt = _z3_try(smt2, budget, tactic="qfnra-nlsat")
-        tried.append(("z3-nlsat", st, round(dt, 3)))
-        total += dt
     if st == "unknown" and ideal is not None:
         from . import ideal as ideal_mod
         t0 = time.time()
@@ -115,6 +108,14 @@ def solve_one(job):
         tried.append(("ideal", "proved" if ok else "unknown", round(dt, 3)))
         if ok:
             st, info = "proved", cert
+    if st == "unknown" and first < budget:
+        st, info, dt = _z3_try(smt2, budget - first)
+        tried.append(("z3", st, round(dt, 3)))
+        total += dt
+    if st == "unknown" and not has_int:
+        st, info, dt = _z3_try(smt2, budget, tactic="qfnra-nlsat")
+        tried.append(("z3-nlsat", st, round(dt, 3)))
+        total += dt
     if st == "unknown":
         st2, info2, dt = _cvc5_try(smt2, budget, ("--nl-cov",) if not has_int else ())
         tried.append(("cvc5", st2, round(dt, 3)))
